@@ -66,6 +66,9 @@ def increments_table(kind):
 
 
 def initial_pva(t0, vd, kind='normal'):
+    if kind == 'seam':
+        # 2 m east of the 180th meridian, 30 m/s westward: the longitude passes -180 deg inside the table
+        return pd.Series([-33.5, -179.99998, 500.0, 40.0, -30.0, vd, 12.0, -7.0, 130.0], index=COLS, name=t0)
     if kind == 'slow':
         return pd.Series([48.0, 11.0, 500.0, 0.004, 0.0005, vd * 1e-3, 0.3, -0.2, 85.0],
                          index=COLS, name=t0)
@@ -79,6 +82,9 @@ SET_STATES = {
     'Sb': dict(d=[47.0, -122.5, 820.0, -80.0, 55.0, 3.0, -40.0, 25.0, -95.0], absolute=True),
     'Sc': dict(d=[0.0, 0.0, 35.5, 0.0, 0.0, 0.0, 0.0, 0.0, 0.0], absolute=False),   # new alt, VD 0
     'Sd': dict(d=[0.0, 0.0, 0.0, 0.0, 0.0, -7.0, 0.0, 0.0, 0.0], absolute=False),   # VD = -7
+    # a small overwrite: 0.1 m north, 2 cm up, 0.1 mm/s (anything decided with a relative tolerance drops it)
+    'Se': dict(d=[1e-6, 0.0, 0.02, 1e-4, 0.0, 0.0, 0.0, 0.0, 0.0], absolute=False),
+    # 'Sf' (handled in Explorer.apply): the state the integrator itself reports, i.e. set_pva(get_pva())
 }
 
 
@@ -156,6 +162,7 @@ class Explorer:
         cls = type('Integrator', (strapdown.Integrator,), {'INITIAL_SIZE': capacity})
         self.cls = cls
         self.ref_cache = {}
+        self.custom_states = {}
         self.inc_bytes = _bytes_df(self.inc)
         # nominal rows (data only: used to define the relative set_pva states)
         f = strapdown.Integrator(self.pva0, wa)
@@ -171,6 +178,8 @@ class Explorer:
 
     # ------------------------------------------------------------ reference model
     def set_state(self, name, c):
+        if isinstance(name, tuple):                    # ('Sf', key): a state captured from a history
+            return pd.Series(self.custom_states[name].copy(), index=COLS, name=self.times[c])
         spec = SET_STATES[name]
         d = np.array(spec['d'])
         vals = d.copy() if spec['absolute'] else self.nominal[c] + d
@@ -273,7 +282,19 @@ class Explorer:
                 c2 = c
                 model2 = model
             else:
-                pva = self.set_state(op, c)
+                if op == 'Sf':
+                    # overwrite with the state the integrator reports itself (a restart from its own state: the
+                    # continuation must still be that of a fresh integrator started from these values)
+                    cur = integ2.get_pva()
+                    exp_cur = self.expected(model)[-1]
+                    if cur.values.tobytes() != exp_cur.tobytes():
+                        self.v('c02-observers', 'get_pva() before set_pva(get_pva()) is not the latest row', hist2)
+                    key_ = ('Sf', hashlib.sha1(exp_cur.tobytes()).hexdigest()[:12])
+                    self.custom_states[key_] = exp_cur.copy()
+                    op_state = key_
+                else:
+                    op_state = op
+                pva = self.set_state(op_state, c)
                 pb = pva.values.tobytes()
                 integ2.set_pva(pva)
                 if pva.values.tobytes() != pb:
@@ -281,7 +302,7 @@ class Explorer:
                 exp_before = self.expected(model)
                 frozen2 = exp_before[:-1] if len(exp_before) > 1 else None
                 c2 = c
-                model2 = (frozen2, op, c, c)
+                model2 = (frozen2, op_state, c, c)
         except Exception as e:  # noqa
             self.v('c02-exception:%s' % type(e).__name__, '%s raised %s: %s'
                    % (op, type(e).__name__, str(e)[:160]), hist2)
